@@ -176,11 +176,16 @@ def place_int(w: int, h: int, d: int, x: int, y: int, z: int, x2: int, y2: int) 
     m = Model(logger=NULL_LOGGER)
     env = _world(m, kind, w, h, d, False)
     off = env._index_offset
-    a = Agent("a", m)
+    from ECAgent.Core import Environment
+    a = Environment(m, id="a") if hx.P.get('nested') else Agent("a", m)     # environments are agents too (empty here)
+    alias = hx.P.get('alias', False)
     inside = _inside(env, off, x, y, z)
     raised = None
     try:
-        env.add_agent(a, x, y, z)
+        if alias and (x, y, z) == (0, 0, 0):
+            env.addAgent(a)                   # deprecated alias of add_agent (no position arguments): lands at the origin
+        else:
+            env.add_agent(a, x, y, z)
     except Exception as e:
         raised = type(e).__name__
     if inside:
@@ -198,7 +203,10 @@ def place_int(w: int, h: int, d: int, x: int, y: int, z: int, x2: int, y2: int) 
         if q is not p or (q.x, q.y, q.z) != (x, y, z) or len(env.agents) != 1:
             return hx.end(hx.fail("a rejected second placement changed the agent's position", requested=(x2, y2, z),
                                   before=(x, y, z), after=None if q is None else (q.x, q.y, q.z)))
-        env.remove_agent("a")          # leaving the world drops the position
+        if alias:
+            env.removeAgent("a")       # deprecated alias of remove_agent
+        else:
+            env.remove_agent("a")      # leaving the world drops the position
         if PositionComponent in a or env.get_agent("a") is not None:
             return hx.end(hx.fail("leaving the world did not drop the position"))
     else:
@@ -337,7 +345,8 @@ def obligations(tier):
           timeout=1200, encoded=enc, bounds={"extents,position,delta": "all ints"}),
         X("move_to_int", move_to_int, parts=[{"world": w} for w in ["space", "gridlike"] + [r for r, wr in real if not wr]],
           labels=("accepted", "rejected"), timeout=1200, encoded=enc),
-        X("place_int", place_int, parts=[{"world": w} for w in ["space", "gridlike"] + [r for r, wr in real if not wr]],
+        X("place_int", place_int, parts=[{"world": w} for w in ["space", "gridlike"] + [r for r, wr in real if not wr]] +
+          [{"world": "space", "nested": True}, {"world": "grid", "nested": True}, {"world": "space", "alias": True}, {"world": "grid", "alias": True}],
           labels=("accepted", "rejected"), timeout=1200, encoded=enc),
         X("no_position", no_position, parts=[{"world": "space"}, {"world": "grid"}], labels=("checked",), timeout=120, encoded=enc),
         X("history", history, parts=_hist_parts(k, [("space", False), ("grid", False)] + ([("gridlike", True)] if tier != "quick" else [])),
